@@ -892,7 +892,9 @@ def _parse_url(name: str) -> URL:
         if components["query"] is not None:
             query = {}
 
-            for key, value in parse_qsl(components["query"]):
+            for key, value in parse_qsl(
+                components["query"], keep_blank_values=True
+            ):
                 if key in query:
                     query[key] = util.to_list(query[key])
                     cast("List[str]", query[key]).append(value)
